@@ -35,7 +35,7 @@ func methodsOf(p *Prog, n *types.Named) map[string]*ssa.Function {
 	for i := 0; i < n.NumMethods(); i++ {
 		m := n.Method(i)
 		if fn := p.byObj[m]; fn != nil {
-			out[m.Name()] = fn
+			out[fnName(fn)] = fn
 		}
 	}
 	return out
